@@ -74,6 +74,24 @@ def run(project: Project, rep, tier: str):
     else:
         rep.discharged("HT-STATE", fi_hs, fi_hs.node, "no module-level state is written on any path: the distance depends on "
                                                     "its arguments only")
+    # ---- HT-DTYPE: the kernel value is a function of the numbers in the diagrams, not of their numpy dtype: Gaussian terms
+    # (floats) must not be stored into an array that inherits the caller's dtype (an int diagram truncates them)
+    import ast as _ast
+    from . import dtype_rule
+    mod = HEAT.rsplit(".", 1)[0]
+    n_fn = 0
+    for q, f2 in sorted(project.functions.items()):
+        if not q.startswith(mod + ".") or not isinstance(f2.node, (_ast.FunctionDef, _ast.AsyncFunctionDef)):
+            continue
+        n_fn += 1
+        for h in dtype_rule.analyse(project, f2):
+            rep.refuted("HT-DTYPE", f2, h["node"],
+                        h["why"] + ": for a diagram given with integer coordinates numpy truncates the stored kernel terms, so the "
+                                   "distance is no longer sqrt(k(F,F)+k(G,G)-2k(F,G)) of the multi-scale kernel (and differs between "
+                                   "the same diagram written with ints and with floats)",
+                        construct=f"{f2.qualname}: {_ast.unparse(h['node'])[:100]}")
+    rep.discharged("HT-DTYPE", fi_hs, fi_hs.node, f"{n_fn} function(s) of {mod} inspected: no floating-point store into an array "
+                                                  f"whose dtype is inherited from the caller's data")
     # ---- kernel
     fi_k, I_k, r_k = _run(project, KER, ("F", "G"))
     rep.analysed(fi_k)
